@@ -315,7 +315,10 @@ def State.resolve (st : State) : CDecl → Resolved
   | .scheduleN ts n ivs k =>
       if n < 0 then .invalid .other else
       match st.tasksNamed ts with
-      | some ts => .body (.scheduleN ts n.toNat ivs k) [] | none => .invalid .validation
+      | some ts =>
+          -- z3's PbEq/PbLe/PbGe raise ValueError on an empty list of Booleans
+          if ts.isEmpty || ivs.isEmpty then .raises .value [] else .body (.scheduleN ts n.toNat ivs k) []
+      | none => .invalid .validation
   | .forceSchedule t b => match st.findTask t with
       | some t => if t.optional then .body (.forceSchedule t b) [] else .raises .type_ []
       | none => .invalid .validation
@@ -328,13 +331,19 @@ def State.resolve (st : State) : CDecl → Resolved
   | .forceScheduleN ts n k =>
       if n ≤ 0 then .invalid .validation else
       match st.tasksNamed ts with
-      | some ts => if ts.all (·.optional) then .body (.forceScheduleN ts n.toNat k) [] else .raises .type_ []
+      | some ts =>
+          if !ts.all (·.optional) then .raises .type_ []
+          else if ts.isEmpty then .raises .value []
+          else .body (.forceScheduleN ts n.toNat k) []
       | none => .invalid .validation
   | .fromExpr f => .body (.fromExpr f) []
   | .forceApplyN cs n k =>
       if n ≤ 0 then .invalid .validation else
       match cs.mapM st.findConstr with
-      | some l => if l.all (·.optional) then .body (.forceApplyN cs n.toNat k) [] else .raises .type_ []
+      | some l =>
+          if !l.all (·.optional) then .raises .type_ []
+          else if l.isEmpty then .raises .value []
+          else .body (.forceApplyN cs n.toNat k) []
       | none => .invalid .validation
   | .not_ o => match st.operand o with
       | some l => .body (.not_ l) (operandRefs [o]) | none => .invalid .validation
